@@ -80,6 +80,14 @@ def run(ctx):
     ctx.trusted = ["AES-128-ECB, PKCS7 and MD5 in pycryptodome / hashlib behave as specified"]
     enc = ctx.fn(ENC)
     file = enc.module.rel
+    sg = summarize(prog, ctx.fn(f"{SEC}.sign")).return_term()
+    sign_ok = meth_is(sg, "digest") and call_is(sg[1][1], "hashlib.md5") and sg[1][1][2] and \
+        strip(sg[1][1][2][0]) == ("bin", "+", ("param", prog.func(f"{SEC}.sign").params[-1]), ("const", SIGN_KEY))
+    ctx.ob("C02.c", f"{SEC}.sign", sign_ok, "sign(data) = md5(data ‖ SIGN_KEY).digest()", func=f"{SEC}.sign", file=file, construct="sign",
+           fail="Security.sign is not md5(data ‖ SIGN_KEY)")
+    if not sign_ok:
+        return          # (the layout of encode is stated in terms of sign)
+
     s = summarize(prog, enc)
     rets = [(pc, t, n) for pc, t, n, _ in s.returns if n is not None]
     ctx.ob("C02.e", ENC, len(rets) == 1 and not rets[0][0], "encode has a single unconditional return (no length-dependent branch)",
@@ -181,12 +189,6 @@ def run(ctx):
         and d.get("pad_arg") is not None and meth_is(d["pad_arg"], "decrypt")
     ctx.ob("C02.c", SEC, order, "pad(.,16) then encrypt / decrypt then unpad(.,16)", func=SEC, file=file, construct="Padding.pad / unpad",
            fail="padding and cipher are not applied in inverse order with the same block size on both sides")
-    sg = summarize(prog, ctx.fn(f"{SEC}.sign")).return_term()
-    sign_ok = meth_is(sg, "digest") and call_is(sg[1][1], "hashlib.md5") and sg[1][1][2] and \
-        strip(sg[1][1][2][0]) == ("bin", "+", ("param", prog.func(f"{SEC}.sign").params[-1]), ("const", SIGN_KEY))
-    ctx.ob("C02.c", f"{SEC}.sign", sign_ok, "sign(data) = md5(data ‖ SIGN_KEY).digest()", func=f"{SEC}.sign", file=file, construct="sign",
-           fail="Security.sign is not md5(data ‖ SIGN_KEY)")
-
     # ---------------------------------------------------------------- C02.b decoder agreement
     dec = ctx.fn(DEC)
     ds = summarize(prog, dec)
@@ -382,6 +384,10 @@ def run(ctx):
             ctx.ob("C02.d", "msmart.lan._Packet._timestamp", ok, f"timestamp byte `{show(sgm.term)[-40:]}` ∈ [{r[0] if r else '?'}, {r[1] if r else '?'}] ⊆ [0,255]",
                    func="msmart.lan._Packet._timestamp", file=file, construct=show(sgm.term)[-60:],
                    fail=f"timestamp byte `{show(sgm.term)[-60:]}` can leave [0,255] for some wall-clock time (struct.error)")
+    # what goes out on a V2 connection is that encoding of the frame, once: observed "at the bytes written to the transport by LAN.send"
+    from ._pipeline import read_returns_decoded, send_writes_wrapped
+    send_writes_wrapped(ctx, "C02.f")
+    read_returns_decoded(ctx, "C02.f")
     ctx.require_min("encoders", 1)
     ctx.require_min("decoders", 1)
     ctx.require_min("segments", 8)
